@@ -26,6 +26,7 @@ const (
 	Basic   Tier = "basic"
 	Premium Tier = "premium"
 	Deluxe  Tier = "de'luxe" // an apostrophe is a legal character of a string constant
+	Legacy  Tier = "old\\school" // and so is a backslash
 )
 
 type Dimensions struct {
